@@ -241,13 +241,19 @@ impl<'a> GeneratorState<'a> {
             Operation::Div(_) => { return Err(self.compiler_state.syntax_error("Operation not possible. 6502 doesn't implement a divider.", pos)) },
             _ => { return Err(self.compiler_state.compiler_error("Arithmetics is partially implemented", pos)); },
         };
+        // When the operation is dropped (x + 0, x | 0, x & 0xff ...) and the left operand was
+        // already in the accumulator (a call result), no instruction has set N and Z from it
+        let mut nothing_emitted = false;
+        let flags_before = self.flags.clone();
         match right2 {
             ExprType::Immediate(v) => {
+                nothing_emitted = matches!(left, ExprType::A(_));
                 if !high_byte && operation == ADC && *v & 0xff == 0 {
                     // Do not insert the ADD #0 instruction
                 } else if high_byte || operation != AND || *v & 0xff != 0xff {
                     if *v != 0 || operation == AND || high_byte { 
                         self.asm(operation, right2, pos, high_byte)?; 
+                        nothing_emitted = false;
                     }
                 }
             },
@@ -286,7 +292,7 @@ impl<'a> GeneratorState<'a> {
             Ok(ExprType::Tmp(signed))
         } else {
             self.acc_in_use = true;
-            self.flags = FlagsState::A;
+            self.flags = if nothing_emitted { flags_before } else { FlagsState::A };
             Ok(ExprType::A(signed))
         }
     }
